@@ -257,6 +257,25 @@ class _RT:
         return dict(loc)
 
     @staticmethod
+    def listcomp(it, fn, qual, ordinal):
+        if not _RT.symbolic(it):
+            return [fn(x) for x in _RT.concrete(it)]
+        if isinstance(it, SymRange):
+            n, elem = it.length, (lambda j: unwrap_int(j + it.start))
+        else:
+            n, elem = it.length, (lambda j: it[j])
+        tag = "%s:comp%d" % (qual, ordinal)
+
+        def get(j):
+            c = ctx()
+            c.loop_ctx.append((tag, j, {"n": 0}))
+            try:
+                return fn(elem(j))
+            finally:
+                c.loop_ctx.pop()
+        return SymList(n, get, "comp%d" % ordinal)
+
+    @staticmethod
     def enter(qual, ordinal, it, names, env):
         return LoopRT(qual, ordinal, it, names, env)
 
@@ -273,6 +292,24 @@ class _Transformer(ast.NodeTransformer):
             self.generic_visit(node)
             return node
         return node     # nested defs are left alone
+
+    def visit_ListComp(self, node):
+        """[ELT for NAME in ITER]  ->  __vc.listcomp(ITER, lambda NAME: ELT, qual, ordinal): with a symbolic ITER the result is a
+        list of symbolic length whose member j is ELT evaluated for element j (creation of Opti symbols inside ELT yields
+        the j-th member of a family, one family per creation site); with a concrete ITER it is the ordinary list."""
+        self.generic_visit(node)
+        if len(node.generators) != 1:
+            return node
+        g = node.generators[0]
+        if g.ifs or g.is_async or not isinstance(g.target, ast.Name):
+            return node
+        ordinal = getattr(self, "comp_ordinal", 0)
+        self.comp_ordinal = ordinal + 1
+        lam = ast.Lambda(args=ast.arguments(posonlyargs=[], args=[ast.arg(arg=g.target.id)], kwonlyargs=[], kw_defaults=[], defaults=[]), body=node.elt)
+        call = ast.Call(func=ast.Attribute(value=ast.Name(id="__vc", ctx=ast.Load()), attr="listcomp", ctx=ast.Load()),
+                        args=[g.iter, lam, ast.Constant(self.qual), ast.Constant(ordinal)], keywords=[])
+        self.report.append(dict(comprehension=ordinal, line=node.lineno, target=g.target.id))
+        return ast.copy_location(call, node)
 
     def visit_For(self, node):
         ordinal = self.ordinal
